@@ -42,6 +42,9 @@ const rowsBatch = 128 // server/handler.go
 
 // midstreamSig is the signature of the known finding "an error behind the first flushed batch
 // reaches the client as a dropped connection".
+// explainSig: EXPLAIN's row holds the text "NULL" in numeric columns (known finding, via=domain).
+const explainSig = "wire-explain-row-has-text-NULL-in-numeric-columns"
+
 const midstreamSig = "wire-midstream-error-after-first-batch-drops-connection"
 
 const nBig = 6000
@@ -614,6 +617,7 @@ func main() {
 	r := core.NewRun("C35", "exploration",
 		"part 1: each evaluation compares one statement's result over the wire (text protocol, binary protocol) with the in-process result of an identically prepared engine: columns, type class, row sequence as Type.SQL text, exact id run, affected rows, last insert id, error number; part 2: each evaluation is one result set received by one of N concurrent clients, which must be exactly the requested id run in order with the statement's own tag on every row; distinct = (route, statement kind, result-size class, outcome class)")
 	r.Assume("binary-protocol cells are compared for NULL-ness always and for text only when the column is integer or decimal, plus the id / payload / tag bookkeeping columns in part 2 (the binary encoding of the other types is C28's subject)")
+	r.Assume("plain EXPLAIN <select> is excluded from the generated statements (known finding " + explainSig + ", pinned witness replayed every run); a new break confined to EXPLAIN output would not be seen")
 	r.Assume("the value-row pipeline (resultForValueRowIter) is not reachable with the in-memory backend (no table implements sql.ValueRowIter); only resultForDefaultIter, the OK / empty / max-1-row shortcuts and the prepared-statement path are exercised")
 	r.Extra("race_build", g4lib.RaceEnabled())
 
@@ -965,6 +969,28 @@ func pinnedWitnesses(r *core.Run, engR *core.Eng, srvT, srvP *core.Srv) {
 	// an error at row 100 (nothing flushed yet) must arrive as the engine's error
 	early := stmt{Kind: "pinned-early-error", SQL: "SELECT id, 9223372036854775807 + IF(id = 100, 1, 0) AS boom FROM big WHERE id <= 600 ORDER BY id", Lo: 1, Hi: 600, ErrPos: 100}
 	runTriple(r, t, early, 100010)
+	// known finding (via=domain: EXPLAIN is not generated): the MySQL-format EXPLAIN row carries the text
+	// "NULL" in its BIGINT UNSIGNED / DOUBLE columns; a typed client cannot decode the row
+	{
+		q := "EXPLAIN SELECT id FROM big WHERE id < 5"
+		rr := refExec(t.ref, q)
+		w := wireExec(t.text, q, false, true)
+		textInNumeric := false
+		for _, row := range rr.Rows {
+			for j, cell := range row {
+				if (rr.Classes[j] == "int" || rr.Classes[j] == "float") && cell != null && strings.Trim(cell, "0123456789.-+eE") != "" {
+					textInNumeric = true
+				}
+			}
+		}
+		fails := rr.Err == 0 && (w.Err != 0 || textInNumeric)
+		r.Eval(1)
+		r.Pinned(explainSig, fmt.Sprintf("%s: in-process %d row(s) with non-numeric text in a numeric column=%v; text-protocol client: errno %d %q", q, len(rr.Rows), textInNumeric, w.Err, w.ErrText), fails,
+			map[string]any{"sql": q, "in_process_rows": rr.Rows, "classes": rr.Classes, "wire_errno": w.Err, "wire_error": w.ErrText})
+		if w.Err == -3 || w.Err == -4 {
+			t.resetSessions()
+		}
+	}
 	// known finding: the same error at row 300 (two batches flushed) drops the connection
 	q := "SELECT id, 9223372036854775807 + IF(id = 300, 1, 0) AS boom FROM big WHERE id <= 600 ORDER BY id"
 	rr := refExec(t.ref, q)
